@@ -413,7 +413,26 @@ fn annotate(p: &Prog, k: u64) -> Option<(Prog, String)> {
 }
 
 /// layout variants applied to the printed text
-pub const LAYOUTS: [&str; 6] = ["double_spaces", "comment_after_open_paren", "newline_after_comma", "line_comment_at_eol", "block_comment_before_close_paren", "crlf"];
+pub const LAYOUTS: [&str; 7] = ["double_spaces", "comment_after_open_paren", "newline_after_comma", "line_comment_at_eol", "block_comment_before_close_paren", "crlf", "block_comment_at_line_start"];
+/// a block comment in front of the first token of every line but the first (a comment in front of a file's first token is a
+/// separate, listed formatter defect that would mask everything else in this variant)
+pub fn comment_at_line_start(src: &str) -> String {
+    let ls: Vec<&str> = src.lines().collect();
+    ls.iter()
+        .enumerate()
+        .map(|(k, l)| {
+            let t = l.trim_start();
+            // not in front of the file's first token, of a closing brace at the start of a line, of a top-level item, or of
+            // a statement inside a nested block: the formatter drops those comments - listed findings, kept as
+            // witness texts in C14
+            // (so: only the statements directly in a function body, which the harness's printer indents by two spaces)
+            let _ = &ls;
+            if t.is_empty() || k == 0 || t.starts_with('}') || l.len() - t.len() != 2 { l.to_string() } else { format!("{}/* c */ {t}", &l[..l.len() - t.len()]) }
+        })
+        .collect::<Vec<_>>()
+        .join("\n")
+        + "\n"
+}
 fn layout(src: &str, which: usize) -> String {
     match which {
         0 => src.replace(' ', "  "),
@@ -421,7 +440,8 @@ fn layout(src: &str, which: usize) -> String {
         2 => src.replace(", ", ",\n    "),
         3 => src.lines().map(|l| format!("{l} // c")).collect::<Vec<_>>().join("\n") + "\n",
         4 => src.replace(')', " /* c */ )"),
-        _ => src.replace('\n', "\r\n"),
+        5 => src.replace('\n', "\r\n"),
+        _ => comment_at_line_start(src),
     }
 }
 
